@@ -113,12 +113,21 @@ def public(n: str) -> bool:
     return not n.startswith("_")
 
 
+def class_leaf(o, n):
+    """what reading a class-level name on the object gives, as Processor.get would show it"""
+    try:
+        v = getattr(o, n)
+    except Exception:  # noqa: BLE001 - a getter that refuses to answer
+        return {"leaf": {"t": "opaque", "v": "raises"}}
+    return {"leaf": canon_get(n, v)}
+
+
 def tree_of(o, keep: set, depth=0):
     """keep = the components of the key under test: class-level names other than readable settings are listed
     only when the key mentions them (nothing else can influence has/get/set on this key; they cannot change)."""
     cls = type(o).__name__
     if isinstance(o, dict) and type(o) is dict:
-        ms = [[n, "class", None, {"leaf": {"t": "opaque", "v": "method"}}] for n in sorted(dir(dict)) if public(n) and n in keep]
+        ms = [[n, "class", None, class_leaf(o, n)] for n in sorted(dir(dict)) if n in keep]
         for k, v in o.items():
             if isinstance(k, str):
                 ms.append([k, "item", None, tree_of(v, keep, depth + 1)])
@@ -130,7 +139,7 @@ def tree_of(o, keep: set, depth=0):
     if cls == "DetectionPipeline":
         groups = set(o.MODEL_GROUPS)
     for n in sorted(set(dir(type(o)))):
-        if not public(n):
+        if not public(n) and n not in keep:
             continue
         attr = inspect.getattr_static(type(o), n)
         if isinstance(attr, property):
@@ -145,9 +154,10 @@ def tree_of(o, keep: set, depth=0):
                     sub = {"leaf": {"t": "none"}}
                 ms.append([n, "prop1" if settable else "prop0", guard, sub])
             elif n in keep:
-                ms.append([n, "prop1" if settable else "prop0", guard, {"leaf": {"t": "opaque", "v": "prop"}}])
+                ms.append([n, "prop1" if settable else "prop0", guard, class_leaf(o, n)])
         elif n in keep:
-            ms.append([n, "class", None, {"leaf": {"t": "opaque", "v": "method"}}])
+            # a method / class constant / slot the key names: what reading it gives (a method, a constant value)
+            ms.append([n, "class", None, class_leaf(o, n)])
     for n, v in vars(o).items():
         if public(n):
             sub = tree_of(v, keep, depth + 1)
@@ -443,8 +453,49 @@ def do_derive(p):
             "shared": shared, "internal": internal_sharing(proc)[:5]}
 
 
+def do_names(p):
+    """the class-level names (methods, class constants, read-only properties) of every kind of object a key can land on:
+    input material for the generator only (keys whose last component is such a name)"""
+    proc = make_processor(p)
+    g = next(iter(p["pipe"]))
+    m = p["pipe"][g][0]
+    group = getattr(proc.pipeline, g)
+    model = getattr(group, m["name"])
+    objs = {"Processor": proc, "Detector": proc.detector, "Geometry": proc.detector.geometry,
+            "Environment": proc.detector.environment, "Characteristics": proc.detector.characteristics,
+            "DetectionPipeline": proc.pipeline, "ModelGroup": group, "ModelFunction": model,
+            "Arguments": model.arguments, "dict": {}}
+    out = {}
+    for label, o in objs.items():
+        rows = []
+        for n in sorted(set(dir(type(o)))):
+            attr = inspect.getattr_static(type(o), n)
+            if isinstance(attr, property):
+                if n in NO_READ:
+                    kind = "prop_volatile"       # reading it changes private caches of the object
+                elif attr.fset is not None:
+                    kind = "prop_rw"
+                else:
+                    try:
+                        kind = "prop_ro_plain" if is_plain(getattr(o, n)) else "prop_ro_object"
+                    except Exception:  # noqa: BLE001
+                        kind = "prop_raises"
+            else:
+                try:
+                    v = getattr(o, n)
+                except Exception:  # noqa: BLE001
+                    kind = "raises"
+                else:
+                    kind = "method" if callable(v) else ("constant" if is_plain(v) else "object")
+            rows.append([n, kind])
+        out[label] = rows
+    return {"names": out}
+
+
 def handle(p):
     op = p["op"]
+    if op == "names":
+        return do_names(p)
     if op == "set":
         return do_set(p)
     if op == "eval":
